@@ -528,6 +528,8 @@ func (l *ListType) Marshal(listID string, writer string) *Statement {
 		jen.For(
 			jen.Id("_, v := range "+listID),
 		).Block(
+			// an element without content (an empty tuple) does not use v
+			jen.Id("_ = v // discard unused variable error"),
 			jen.Err().Op("=").Add(l.value.Marshal("v", writer)),
 			jen.Id(`if (err != nil) {
                 return fmt.Errorf("write slice value: %s", err)
@@ -647,6 +649,8 @@ func (m *MapType) Marshal(mapID string, writer string) *Statement {
 		jen.For(
 			jen.Id("k, v := range "+mapID),
 		).Block(
+			// a key or an element without content (an empty tuple) is not used
+			jen.Id("_, _ = k, v // discard unused variable error"),
 			jen.Err().Op("=").Add(m.key.Marshal("k", writer)),
 			jen.Id(`if (err != nil) {
                 return fmt.Errorf("write map key: %s", err)
